@@ -1,6 +1,6 @@
 """Random well-nested source files with construction truth, for any registered language."""
 from . import fb as fbm
-from .langs import LANGS
+from .langs import LANGS, CONTAINERS, NEST
 
 PROSE_ASCII = ["note", "keep in sync", "see docs", "TODO later", "x y z", "section", "a=b", "100%", "it's", "q: \"w\""]
 PROSE_MB = ["café", "日本語", "naïve — dash", "\U0001F600 ok", "über", "Δx"]
@@ -25,6 +25,7 @@ class Opts:
         self.max_blocks = 12
         self.final_newline = True
         self.mltag = True           # layout "multi": some start tags have their attributes spread over several (decorated, indented) lines
+        self.container = None       # "wrap": the items sit inside a class / function / element body; ("deep", n): inside n nested constructs
         self.filler_lines = 0       # ordinary code lines in front of everything (line numbers beyond 65535)
         self.long_prose = 0         # some comments carry this many characters of prose in front of their tag (columns beyond 65535)
         self.bom = False            # file starts with a UTF-8 byte order mark (3 bytes that count in line 1's byte columns)
@@ -106,8 +107,10 @@ class _G:
             return ""
         return self.r.choice(["", "  ", "    ", "\t"]) if self.r.random() < 0.5 else ""
 
+    code_pool = None
+
     def code(self, depth):
-        self.b.line_text(self.indent(depth) + self.r.choice(self.lang["code"]))
+        self.b.line_text(self.indent(depth) + self.r.choice(self.code_pool or self.lang["code"]))
 
     def decoy(self):
         if not self.lang["decoys"]:
@@ -314,9 +317,31 @@ def gen_file(r, lang_name, opts=None):
         g.b.line_text(ln)
     for k in range(o.filler_lines):
         g.b.line_text(lang["code"][k % len(lang["code"])])
+    closers = []
+    if o.container == "wrap" and CONTAINERS.get(lang_name):
+        op, cl, members = r.choice(CONTAINERS[lang_name])
+        g.b.line_text(op)
+        closers = [cl]
+        g.code_pool = members
+        g.meta["layouts"].add("in-container")
+    elif isinstance(o.container, tuple) and o.container[0] == "deep" and lang_name in NEST:
+        wop, lop, lcl, wcl, unit = NEST[lang_name]
+        n = o.container[1]
+        if wop:
+            g.b.line_text(wop)
+        for d in range(n):
+            g.b.line_text(unit * d + lop)
+        closers = ([unit * d + lcl for d in reversed(range(n))] if lcl else []) + ([wcl] if wcl else [])
+        g.b.start_prefix(unit * n)
+        g.meta["layouts"].add("deep-%d" % n)
     g.items(0)
     if g.nblocks == 0:
         g.block(0)
+    g.b.line_prefix = ""
+    if not g.b.at_line_start():
+        g.b.nl()
+    for ln in closers:
+        g.b.line_text(ln)
     for ln in lang["epilogue"]:
         g.b.line_text(ln)
     if not o.final_newline:
